@@ -334,7 +334,104 @@ class BinarySearchClosestLower(Unit):
         st.oblige("... and no element below the target is greater", z3.Implies(z3.Not(rn), z3.ForAll([j], z3.Implies(z3.And(0 <= j, j < xs.n, z3.Select(xs.arr, j) < t), z3.Select(xs.arr, j) <= rv))))
 
 
-UNITS = [StatesInInterval(), InstantiateTiming(), InstantiateInterval(), BinarySearchClosestLower()]
+Plan05, Problem05, AI05 = Ref("TimeTriggeredPlan05"), Ref("Problem05", pv.Problem), Ref("ActionInstance05")
+Timing05 = Ref("Timing05", pv.Timing, fields={"delay": Real})
+Timing05.observers.update({"is_from_start": ((), Bool), "is_from_end": ((), Bool)})
+Interval05 = Ref("TimeInterval05", pv.TimeInterval, fields={"upper": Timing05, "lower": Timing05})
+EffList05, GoalList05 = Ref("EffectList05"), Ref("GoalList05")
+Problem05.fields.update({"timed_effects": Map(Timing05, EffList05, ordered=True), "timed_goals": Map(Interval05, GoalList05, ordered=True)})
+TA_START = z3.Function("timed_action.start", Plan05.z3sort(), z3.IntSort(), z3.RealSort())
+TA_AI = z3.Function("timed_action.instance", Plan05.z3sort(), z3.IntSort(), AI05.z3sort())
+TA_NODUR = z3.Function("timed_action.duration.isnone", Plan05.z3sort(), z3.IntSort(), z3.BoolSort())
+TA_DUR = z3.Function("timed_action.duration", Plan05.z3sort(), z3.IntSort(), z3.RealSort())
+TA_LEN = z3.Function("timed_actions.len", Plan05.z3sort(), z3.IntSort())
+
+
+class TimedActions:
+    """plan.timed_actions: a symbolic-length sequence of (start, action instance, duration or None)"""
+    is_symbolic_sequence = True
+
+    def __init__(self, plan):
+        self.plan, self.n = plan, TA_LEN(plan.z)
+
+    def at(self, i):
+        iz = zint(i)
+        p = self.plan.z
+        return (SReal(TA_START(p, iz)), AI05.wrap(TA_AI(p, iz)), SUnion([(TA_NODUR(p, iz), None), (z3.Not(TA_NODUR(p, iz)), SReal(TA_DUR(p, iz)))]))
+
+
+Plan05.attrs["timed_actions"] = lambda eng, st, p: TimedActions(p)
+
+
+class ExtractMakespan(Unit):
+    prop = "C05"
+    name = "_extract_makespan"
+    doc = "the reported makespan is at least every action end, every from-start timed-effect delay and every timed-goal bound, and is one of them (or 0)"
+
+    def target(self):
+        return pv._extract_makespan
+
+    def _cands(self, eng, st, plan, problem):
+        """(candidate value, guard) per index of the three collections, as functions of an index"""
+        p = plan.z
+        te = B.field_uf(eng, st, problem, "timed_effects")
+        tg = B.field_uf(eng, st, problem, "timed_goals")
+        dl = B._uf("Timing05.delay", Timing05.z3sort(), z3.RealSort())
+        fs = B._uf("Timing05.is_from_start()", Timing05.z3sort(), z3.BoolSort())
+        fe = B._uf("Timing05.is_from_end()", Timing05.z3sort(), z3.BoolSort())
+        up, lo = B._uf("TimeInterval05.upper", Interval05.z3sort(), Timing05.z3sort()), B._uf("TimeInterval05.lower", Interval05.z3sort(), Timing05.z3sort())
+        end = lambda j: z3.If(TA_NODUR(p, j), TA_START(p, j), TA_START(p, j) + TA_DUR(p, j))          # noqa: E731
+        eff = lambda j: (dl(z3.Select(te.keys.arr, j)), fs(z3.Select(te.keys.arr, j)))                   # noqa: E731
+        goal = lambda j: dl(z3.If(fe(up(z3.Select(tg.keys.arr, j))), lo(z3.Select(tg.keys.arr, j)), up(z3.Select(tg.keys.arr, j))))   # noqa: E731
+        return end, eff, goal, te, tg
+
+    def configure(self, eng):
+        QNM = "unified_planning.engines.plan_validator._extract_makespan"
+
+        def mk(which):
+            def inv(L):
+                end, eff, goal, te, tg = self._cands(L._eng, L.st, L.plan, L.problem)
+                i = zint(L._i)
+                m = zreal(L.makespan)
+                m0 = zreal(L._pre.makespan)
+                j = z3.Int(fresh_name("j"))
+                if which == 0:
+                    ge = z3.ForAll([j], z3.Implies(z3.And(0 <= j, j < i), m >= end(j)))
+                    one = z3.Or(m == 0, z3.Exists([j], z3.And(0 <= j, j < i, m == end(j))))
+                elif which == 1:
+                    ge = z3.ForAll([j], z3.Implies(z3.And(0 <= j, j < i, eff(j)[1]), m >= eff(j)[0]))
+                    one = z3.Or(m == m0, z3.Exists([j], z3.And(0 <= j, j < i, eff(j)[1], m == eff(j)[0])))
+                else:
+                    ge = z3.ForAll([j], z3.Implies(z3.And(0 <= j, j < i), m >= goal(j)))
+                    one = z3.Or(m == m0, z3.Exists([j], z3.And(0 <= j, j < i, m == goal(j))))
+                return [("makespan dominates the scanned candidates", ge), ("makespan is its earlier value or a scanned candidate", one), ("makespan never decreases", m >= m0)]
+            return inv
+        eng.loops[(QNM, 0)] = LoopSpec(mk(0), modifies=["action_start_time", "_", "action_duration", "action_end", "makespan"], types={"makespan": Real})
+        eng.loops[(QNM, 1)] = LoopSpec(mk(1), modifies=["effect_timing", "makespan"], types={"makespan": Real})
+        eng.loops[(QNM, 2)] = LoopSpec(mk(2), modifies=["goal_interval", "interval_bound", "makespan"], types={"makespan": Real})
+
+    def setup(self, eng, st):
+        plan, problem = Plan05.fresh("plan"), Problem05.fresh("problem")
+        st.assume(TA_LEN(plan.z) >= 0)
+        return [problem, plan], {}, dict(plan=plan, problem=problem)
+
+    def post(self, eng, ctx, st, out):
+        if out[0] != "return":
+            return
+        plan, problem = ctx["plan"], ctx["problem"]
+        end, eff, goal, te, tg = self._cands(eng, st, plan, problem)
+        m = zreal(out[1])
+        j = z3.Int(fresh_name("j"))
+        n = TA_LEN(plan.z)
+        st.oblige("at least every action end (start, plus the duration when there is one)", z3.ForAll([j], z3.Implies(z3.And(0 <= j, j < n), m >= end(j))))
+        st.oblige("at least the delay of every timed effect given from the start", z3.ForAll([j], z3.Implies(z3.And(0 <= j, j < te.keys.n, eff(j)[1]), m >= eff(j)[0])))
+        st.oblige("at least the bound of every timed goal", z3.ForAll([j], z3.Implies(z3.And(0 <= j, j < tg.keys.n), m >= goal(j))))
+        st.oblige("and not larger than needed: 0 or one of those values",
+                  z3.Or(m == 0, z3.Exists([j], z3.And(0 <= j, j < n, m == end(j))), z3.Exists([j], z3.And(0 <= j, j < te.keys.n, eff(j)[1], m == eff(j)[0])),
+                        z3.Exists([j], z3.And(0 <= j, j < tg.keys.n, m == goal(j)))))
+
+
+UNITS = [StatesInInterval(), InstantiateTiming(), InstantiateInterval(), BinarySearchClosestLower(), ExtractMakespan()]
 LEVEL = "other"
 EXPLANATION = __doc__
 TRUSTED = ["trace keys are -1 (initial state) and non-negative event times; start >= 0; end is None or >= start "
